@@ -58,7 +58,7 @@ func hessianStrings(ss ...string) []byte {
 func runDubbo(c *hx.Ctx) {
 	r := c.Rng.Fork()
 	proto := (&dubbo.XCodec{}).NewXProtocol(context.Background())
-	n := c.N(1500, 20000)
+	n := c.N(1500, 13000)
 	for i := 0; i < n; i++ {
 		var flag byte
 		isReq := r.Chance(55)
@@ -173,7 +173,7 @@ func thriftMessage(r *hx.Rng, ok bool, tail int) []byte {
 func runThrift(c *hx.Ctx) {
 	r := c.Rng.Fork()
 	proto := (&dubbothrift.XCodec{}).NewXProtocol(context.Background())
-	n := c.N(1500, 20000)
+	n := c.N(1500, 13000)
 	for i := 0; i < n; i++ {
 		big := r.Chance(10)
 		sl := r.Pick([]int{0, 1, 2, 12, 28, 254, 255, 256, 257, 65514, r.Intn(64)})
@@ -289,7 +289,7 @@ var tarsInts = []int32{0, 1, 2, -1, 127, 128, -128, -129, 255, 256, 32767, 32768
 func runTars(c *hx.Ctx) {
 	r := c.Rng.Fork()
 	proto := (&tars.XCodec{}).NewXProtocol(context.Background())
-	n := c.N(1500, 20000)
+	n := c.N(1500, 13000)
 	for i := 0; i < n; i++ {
 		isReq := r.Chance(55)
 		big := r.Chance(10)
